@@ -36,7 +36,7 @@ func finalGen(t *rapid.T) *prog.ErrSpec {
 }
 
 func gen(t *rapid.T) Case {
-	c := Case{Family: rapid.SampledFrom([]string{"closes", "pingpong", "early-exit", "early-exit", "cancel", "typed"}).Draw(t, "family")}
+	c := Case{Family: rapid.SampledFrom([]string{"closes", "pingpong", "early-exit", "early-exit", "cancel", "typed", "oversize"}).Draw(t, "family")}
 	s := &c.S
 	s.Cfg = prog.Config{Protocol: rapid.SampledFrom(prog.Protocols).Draw(t, "protocol"), Codec: "proto", Kind: prog.Bidi}
 	s.Transport = rapid.SampledFrom([]string{"mem", "h2c"}).Draw(t, "transport")
@@ -129,6 +129,32 @@ func gen(t *rapid.T) Case {
 			}
 			s.Client.Ops = append(s.Client.Ops, co)
 		}
+	case "oversize":
+		// the client has a read limit; the handler sends a message above it in
+		// the middle of its response stream, and the client keeps receiving
+		s.Cfg.CReadMax = 1000
+		before := rapid.IntRange(0, 2).Draw(t, "before")
+		after := rapid.IntRange(1, 3).Draw(t, "after")
+		s.Handler.Steps = append(s.Handler.Steps, prog.HStep{Op: "recv", N: 1})
+		for k := 0; k < before; k++ {
+			s.Handler.Steps = append(s.Handler.Steps, prog.HStep{Op: "send", Msg: msg(k, 10)})
+		}
+		s.Handler.Steps = append(s.Handler.Steps, prog.HStep{Op: "send", Msg: msg(before, rapid.SampledFrom([]int{1001, 3000, 70000}).Draw(t, "bigsize"))})
+		for k := 0; k < after; k++ {
+			s.Handler.Steps = append(s.Handler.Steps, prog.HStep{Op: "send", Msg: msg(before+1+k, 10)})
+		}
+		s.Handler.Drain = true
+		s.Client.Ops = append(s.Client.Ops, prog.COp{Op: "send", Msg: msg(0, 10)})
+		// The client closes its request side first, so that the (draining)
+		// handler terminates on its own. Without that the gRPC client's Receive,
+		// having rejected the oversized message, waits for the trailers of a
+		// stream whose handler in turn waits for the client: a circular wait of
+		// the two programs, not something the property speaks about.
+		s.Client.Ops = append(s.Client.Ops, prog.COp{Op: "closereq"})
+		for k := 0; k < before+1+after+1; k++ {
+			s.Client.Ops = append(s.Client.Ops, prog.COp{Op: "recv"})
+		}
+		s.Client.Ops = append(s.Client.Ops, prog.COp{Op: "closereq"}, prog.COp{Op: "closeresp"})
 	case "typed":
 		s.Cfg.Kind = rapid.SampledFrom([]string{prog.Unary, prog.Client, prog.Server}).Draw(t, "kind")
 		s.Transport = rapid.SampledFrom([]string{"mem", "h1", "h2c"}).Draw(t, "transport")
@@ -174,7 +200,7 @@ func check(tt *testing.T, c Case) (pbt.Info, error) {
 	if len(s.Delays) > 0 {
 		info.Label("with-delays")
 	}
-	info.NonTrivial = c.Family == "early-exit" || c.Family == "cancel" || len(s.Delays) > 0 || s.ReqBodyDelayNS > 0
+	info.NonTrivial = c.Family == "early-exit" || c.Family == "cancel" || c.Family == "oversize" || len(s.Delays) > 0 || s.ReqBodyDelayNS > 0
 	if s.ReqBodyDelayNS > 0 {
 		info.Label("slow-request-body-reads")
 	}
@@ -214,6 +240,33 @@ func check(tt *testing.T, c Case) (pbt.Info, error) {
 	}
 	if c.Family == "cancel" {
 		return info, nil // codes after cancellation are C15's business
+	}
+	if c.Family == "oversize" {
+		// the Receive that meets the oversized message fails, and so does every later one
+		nrecv, firstErr := 0, -1
+		for _, o := range res.Ops {
+			if o.Op != "recv" {
+				continue
+			}
+			if o.Err != nil && firstErr < 0 {
+				firstErr = nrecv
+			}
+			nrecv++
+		}
+		before := 0
+		for _, st := range s.Handler.Steps {
+			if st.Op == "send" {
+				if st.Msg.TLen > 1000 {
+					break
+				}
+				before++
+			}
+		}
+		if firstErr != before {
+			return info, fmt.Errorf("%s: the message at position %d exceeds the client's read limit, but the first failing Receive was #%d", where, before, firstErr)
+		}
+		info.Label("receive-after-read-limit-error")
+		return info, nil
 	}
 	if len(tr.Calls) != 1 {
 		return info, fmt.Errorf("%s: handler ran %d times (%v)", where, len(tr.Calls), res.Err)
@@ -303,7 +356,7 @@ func firstLines(s string, n int) string {
 
 var spec = pbt.Spec[Case]{
 	Prop: "C14", Name: "programs", Gen: gen, Check: check,
-	Rule: "client/handler program pairs from five families (closing programs; ping-pong; handler exits early while the client keeps sending up to 6×200 KB; cancel followed by arbitrary further operations; typed unary/client/server calls) × 3 protocols × {in-memory transport, real net/http h2c and HTTP/1.1 over net.Pipe} with 0..2 virtual delays (1 ms..2 s) at the library's named yield points and optionally delayed request-body reads by the transport, all inside a synctest bubble; oracle: no deadlock (every API call returned), no goroutine with a library frame left after a 30 s virtual settle period, response body closed, draining handler sees io.EOF, later Sends fail only with io.EOF-wrapping errors and monotonically, the next Receive reports the handler's actual outcome, Receive errors are sticky; non-trivial = early-exit or cancel family, or ≥1 injected delay",
+	Rule: "client/handler program pairs from six families (a response message above the client's read limit followed by further messages and further Receives; closing programs; ping-pong; handler exits early while the client keeps sending up to 6×200 KB; cancel followed by arbitrary further operations; typed unary/client/server calls) × 3 protocols × {in-memory transport, real net/http h2c and HTTP/1.1 over net.Pipe} with 0..2 virtual delays (1 ms..2 s) at the library's named yield points and optionally delayed request-body reads by the transport, all inside a synctest bubble; oracle: no deadlock (every API call returned), no goroutine with a library frame left after a 30 s virtual settle period, response body closed, draining handler sees io.EOF, later Sends fail only with io.EOF-wrapping errors and monotonically, the next Receive reports the handler's actual outcome, Receive errors are sticky; non-trivial = early-exit or cancel family, or ≥1 injected delay",
 }
 
 func TestPrograms(t *testing.T) { pbt.Run(t, spec) }
